@@ -72,6 +72,10 @@ def write_problem(pb, wd, mid):
     models.write_squids(os.path.join(d, "meg.txt"), [tuple(x) for x in pb["mpos"]], [tuple(x) for x in pb["mori"]])
     return core.fcase("c04", [1, mid, len(pb["dips"])], flat(pb["dips"]))
 
+def safe_fparse(line):
+    try: return core.fparse(line)
+    except ValueError: return None, None      # noise on the harness' stdout
+
 def parse(res):
     zi, fl = res
     if zi is None or zi[0] != 0: return None
@@ -146,10 +150,12 @@ def reference(r):
 def run_problem(ck, hb, pb, mid, stats, minimise=True):
     line = write_problem(pb, ck.workdir, mid)
     rc, out, err = core.run_harness(hb, [line], ck.workdir, timeout=900)
-    r = parse(core.fparse(out[0]))
+    r = parse(safe_fparse(out[0]))
     STAGES = {1: "HeadMat", 2: "DipSourceMat", 3: "Head2EEGMat", 4: "Head2MEGMat", 5: "DipSource2MEGMat", 6: "SymMatrix::inverse", 7: "GainEEG", 8: "GainEEGadjoint",
               9: "GainMEG", 10: "GainMEGadjoint", 11: "GainEEGMEGadjoint", 12: "svd"}
-    z0 = core.fparse(out[0])[0]; stage = STAGES.get((z0[0] - 10) if z0 else -1, "loading the head / sensors")
+    z0 = safe_fparse(out[0])[0]; stage = STAGES.get((z0[0] - 10) if z0 else -1, "loading the head / sensors")
+    if z0 is None:       # the harness process ended (or printed noise) inside the case, e.g. LAPACK's XERBLA prints and stops
+        stage = "the gain computations (process ended: %s)" % " / ".join(o.strip()[:90] for o in out[:2])
     topo = pb["model"]["info"].get("topology")
     if r is None:
         stats["threw"] = stats.get("threw", 0) + 1; stats.setdefault("threw_kinds", []).append(topo)
